@@ -488,3 +488,15 @@ def run(ctx):
     ctx.guard(r04_7)
     ctx.guard(r04_8)
     ctx.guard(r04_9)
+
+
+_run_c04c = run
+
+
+def run(ctx):
+    _run_c04c(ctx)
+    # a node's two seeds are consumed once, by the one split of that node: a routine that splits a node which already has
+    # children draws the same two seeds again at another split point, and the values on either side of the two split
+    # points are then correlated (leaf typestate of C05; the round-5 C04 seed tested `_midway` by truthiness)
+    from . import c05
+    ctx.guard(c05.r05_2)
